@@ -49,6 +49,7 @@ def gen_cases(n, seed, unimock, label, profile=None):
         if any(o.startswith("mockall") and "false" not in o for o in opts):
             macro = "entrait"   # (exported, the automock attribute would really be expanded)
         prof = dict(profile or {})
+        prof.setdefault("p_lt_relation", 0.4)   # (outlives relations between the fn's lifetimes, inline or as where predicates)
         if unimock_expanded(macro, opts, unimock):
             prof.update(UNIMOCK_SAFE)
         if rng.random() < 0.12:
